@@ -28,7 +28,7 @@ from common import *  # noqa
 
 PROP = "C10"
 TABLES = ["C10_DisplayMappings"]
-MODELS = [("c10", "Extract/ExC10.v", "run_C10")]
+MODELS = [("c10", "Extract/ExC10.v", "run_C10p")]
 
 sys.path.insert(0, os.path.join(VERIF, "gen"))
 
@@ -142,13 +142,14 @@ def impl_pipeline(case, env=None):
     _output_screen_diff.  -> (result, info); info carries what the oracle needs
     and the style table observed."""
     from prompt_toolkit.data_structures import Point, Size
-    from prompt_toolkit.layout.containers import Window
+    from prompt_toolkit.layout.containers import Window, WindowAlign
     from prompt_toolkit.layout.controls import UIContent
     from prompt_toolkit.layout.screen import _CHAR_CACHE, Screen, Transparent, WritePosition
     from prompt_toolkit.renderer import _output_screen_diff
     env = env or StyleEnv()
     _, _wt, _st, cf, pf, steps = case
-    width, height, xpos, ypos, wrap = cf
+    width, height, xpos, ypos, wrap, hscroll, align = cf
+    walign = [WindowAlign.LEFT, WindowAlign.CENTER, WindowAlign.RIGHT][align]
     pfx = None
     if pf:
         p0, p1 = frags_of(pf[0]), frags_of(pf[1])
@@ -164,7 +165,7 @@ def impl_pipeline(case, env=None):
         screen = Screen()
         ui = UIContent(get_line=lambda i: list(lines[i]), line_count=len(lines))
         win._copy_body(ui, screen, WritePosition(xpos, ypos, width, height), 0, width,
-                       wrap_lines=bool(wrap), get_line_prefix=pfx)
+                       wrap_lines=bool(wrap), get_line_prefix=pfx, horizontal_scroll=hscroll, align=walign)
         if app_sx:
             screen.append_style_to_content(unS(app_sx[0]))
         zwe = [[y, x, S(t)] for y, r in screen.zero_width_escapes.items() for x, t in r.items()]
@@ -202,6 +203,79 @@ def impl_pipeline(case, env=None):
         prev = screen
     info["out"] = out
     return result, info
+
+
+def lines_sx(lines):
+    return [[[S(st), S(tx)] for st, tx, *_ in l] for l in lines]
+
+
+def impl_producer(case):
+    """kinds 4-7: the real fragment producers."""
+    k = case[0]
+    if k == 4:
+        from prompt_toolkit.layout.controls import FormattedTextControl
+        ctl = FormattedTextControl(text=frags_of(case[2]), style=unS(case[1]))
+        content = ctl.create_content(80, None)
+        return lines_sx([content.get_line(i) for i in range(content.line_count)])
+    if k == 5:
+        from prompt_toolkit.buffer import Buffer
+        from prompt_toolkit.document import Document
+        from prompt_toolkit.layout.controls import BufferControl
+        from prompt_toolkit.layout.processors import BeforeInput, PasswordProcessor, Processor, Transformation
+        from prompt_toolkit.lexers import SimpleLexer
+
+        class Ident(Processor):
+            def apply_transformation(self, ti):
+                return Transformation(ti.fragments)
+        procs = []
+        for pr in case[2]:
+            if pr[0] == 0:
+                procs.append(Ident())
+            elif pr[0] == 1:
+                procs.append(PasswordProcessor(char=unS(pr[1])))
+            else:
+                procs.append(BeforeInput(frags_of(pr[2]), style=unS(pr[1])))
+        buf = Buffer(document=Document(unS(case[3]), 0))
+        buf._load_history_task = True      # no event loop here: skip the asynchronous history load
+        ctl = BufferControl(buffer=buf, lexer=SimpleLexer(style=unS(case[1])), input_processors=procs,
+                            include_default_input_processors=False)
+        content = ctl.create_content(80, 10)
+        return lines_sx([content.get_line(i) for i in range(content.line_count)])
+    if k == 6:
+        from prompt_toolkit.completion import Completion
+        from prompt_toolkit.layout.menus import _get_menu_item_fragments
+        comp = Completion("x", display=frags_of(case[4]), style=unS(case[2]), selected_style=unS(case[3]))
+        return lines_sx([_get_menu_item_fragments(comp, bool(case[5]), case[6], bool(case[7]))])[0]
+    if k == 7:
+        from prompt_toolkit.layout.utils import explode_text_fragments
+        return lines_sx([explode_text_fragments(frags_of(case[1]))])[0]
+    raise ValueError(k)
+
+
+def oracle_producer(case, res):
+    """A producer never marks text [ZeroWidthEscape] by itself: with no mark in
+    the styles/fragments the application supplied there is none in the result."""
+    k = case[0]
+    MARK = "[ZeroWidthEscape]"
+    if k == 4:
+        given = [unS(case[1])] + [unS(f[0]) for f in case[2]]
+        out = [f for l in res for f in l]
+    elif k == 5:
+        given = [unS(case[1])] + [unS(pr[1]) for pr in case[2] if pr[0] == 2] + [unS(f[0]) for pr in case[2] if pr[0] == 2 for f in pr[2]]
+        out = [f for l in res for f in l]
+    elif k == 6:
+        given = [unS(case[2]), unS(case[3])] + [unS(f[0]) for f in case[4]]
+        out = res
+    else:
+        given = [unS(f[0]) for f in case[1]]
+        out = res
+    if any(MARK in g for g in given):
+        return None
+    for st, tx in out:
+        if MARK in unS(st):
+            return ("producer kind %d marked text %r as [ZeroWidthEscape] (style %r) although no supplied style carries the mark"
+                    % (k, unS(tx), unS(st)), "producer-marks")
+    return None
 
 
 def impl_print_formatted(frags):
@@ -461,14 +535,16 @@ def gen_pipeline_cases(chk):
     # every code point 0..0x2FF (+ samples) in the middle of a line, first paint
     for c in list(range(0x300)) + SAMPLES_ABOVE:
         for wrap in ((0, 1) if (thorough or c < 0xA1) else (c % 2,)):
-            cf = [7, 2, 0, 0, wrap]
+            cf = [7, 2, 0, 0, wrap, 0, 0]
             steps = [[[[[S(""), S("a" + chr(c) + "b" + chr(c))]]], [], [0, 0, 9, 3, 1, 0, 1, 0, 0]]]
             cases.append(mk_pipeline_case(cf, [], steps))
     for _ in range(30000 if thorough else 1200):
         width = rng.randint(1, 12)
         height = rng.randint(1, 4)
         xpos, ypos = rng.choice([0, 0, 1, 2]), rng.choice([0, 0, 1])
-        cf = [width, height, xpos, ypos, rng.randint(0, 1)]
+        wrapf = rng.randint(0, 1)
+        cf = [width, height, xpos, ypos, wrapf,
+              0 if (wrapf or rng.random() < 0.6) else rng.choice([1, 1, 2, 3, 5, 20]), rng.choice([0, 0, 0, 1, 2])]
         pf = [] if rng.random() < 0.6 else [rand_frags(rng, 2, 2), rand_frags(rng, 2, 2)]
         cols = xpos + width + rng.choice([0, 0, 1, 3])
         rows = ypos + height + rng.choice([0, 0, 1, -1]) if height > 1 else ypos + height
@@ -489,6 +565,35 @@ def gen_pipeline_cases(chk):
     return cases
 
 
+def gen_producer_cases(chk):
+    rng = chk.rng
+    n = 3000 if chk.tier == "thorough" else 350
+    pstyles = STYLES + ["[ZeroWidth", "Escape]", "x[ZeroWidthEscape", "[ZeroWidthEscape]"]
+    cases = []
+
+    def frs(maxfr=3, maxn=5):
+        fr = []
+        for _ in range(rng.randint(0, maxfr)):
+            t = rand_text(rng, maxn)
+            if rng.random() < 0.4:
+                t = t + "\n" * rng.randint(1, 2) + rand_text(rng, 2)
+            fr.append([S(rng.choice(pstyles)), S(t)])
+        return fr
+    for _ in range(n):
+        cases.append([4, S(rng.choice(pstyles)), frs()])
+        procs = []
+        for _k in range(rng.choice([0, 1, 1, 2])):
+            r = rng.random()
+            procs.append([0] if r < 0.2 else [1, S(rng.choice(["*", "", "ab", "\x1b"]))] if r < 0.5 else [2, S(rng.choice(pstyles)), frs(2, 3)])
+        text = "\n".join(rand_text(rng, 6) for _k in range(rng.randint(1, 3)))
+        cases.append([5, S(rng.choice(pstyles)), procs, S(text)])
+        disp = frs(2, 8)
+        cases.append([6, wctab_for("".join(unS(f[1]) for f in disp) + " ."), S(rng.choice(pstyles)), S(rng.choice(pstyles)), disp,
+                      rng.randint(0, 1), rng.choice([1, 2, 3, 4, 6, 9, 14, 30]), rng.randint(0, 1)])
+        cases.append([7, frs()])
+    return cases
+
+
 def gen_e2e_specs(chk):
     rng = chk.rng
     thorough = chk.tier == "thorough"
@@ -497,6 +602,12 @@ def gen_e2e_specs(chk):
         t = "a" + chr(c) + "b"
         specs.append({"buffer": t, "message": "p" + chr(c) + "> ", "display": "d" + chr(c), "meta": "m" + chr(c),
                       "toolbar": "t" + chr(c) + "z", "cols": 40, "rows": 10, "family": "single", "cp": c})
+    # a control character immediately followed by a zero-width / combining character in one fragment
+    followers = [0x301, 0x200D, 0xFE0F, 0x483, 0x200B]
+    for i, c in enumerate([x for x in range(0xA1) if is_control(x)]):
+        t = "ab" + chr(c) + chr(followers[i % len(followers)]) + "z"
+        specs.append({"buffer": t, "message": t + "> ", "display": t, "meta": t, "toolbar": t, "cols": 40, "rows": 10,
+                      "family": "pair", "cp": c})
     for k in range(6000 if thorough else 250):
         def mix():
             return "".join(rng.choice(ESC_SEQS) if rng.random() < 0.4 else rand_text(rng, 5) for _ in range(rng.randint(1, 4)))
@@ -513,6 +624,8 @@ def describe(c, a, m):
         return "Char(%r, %r): impl=%r model=%r" % (unS(c[2]), unS(c[3]), a, m)
     if c[0] == 2:
         return "Vt100_Output.write(%r): impl=%r model=%r" % (unS(c[1]), a, m)
+    if c[0] in (4, 5, 6, 7):
+        return "producer kind %d case=%s impl=%s model=%s" % (c[0], str(c)[:300], str(a)[:200], str(m)[:200])
     where = "?"
     if isinstance(m, list) and isinstance(a, list):
         for k, (x, y) in enumerate(zip(a, m)):
@@ -529,6 +642,8 @@ def tagger(c, a, m):
         return {"op": "Char", "family": "char-model"}
     if c[0] == 2:
         return {"op": "Vt100_Output.write", "family": "write-model"}
+    if c[0] in (4, 5, 6, 7):
+        return {"op": "producer-%d" % c[0], "family": "producer-model"}
     part = "?"
     if isinstance(m, list) and isinstance(a, list):
         for x, y in zip(a, m):
@@ -543,6 +658,8 @@ def run_case_impl(c, env):
         return impl_char(c), None
     if c[0] == 2:
         return impl_write(c), None
+    if c[0] in (4, 5, 6, 7):
+        return impl_producer(c), None
     return impl_pipeline(c, env)
 
 
@@ -557,15 +674,15 @@ def main(tier):
                       {"kind": "structure", "site": p.split(":")[0] + ":" + p.split(" line ")[0].split(":")[-1]},
                       {"problem": p, "how": "gen/gen_t_c10.py scan(<repo>)"}, no_input=True)
     pr = chk.proofs("Props/C10.v", tables=TABLES)
-    okm, logm = build_model("c10", "Extract/ExC10.v", "run_C10", tables=TABLES)
+    okm, logm = build_model("c10", "Extract/ExC10.v", "run_C10p", tables=TABLES)
     if not okm:
         chk.violation("tie", "model does not build: " + logm[-400:], {"kind": "model-build"}, {"log": logm[-3000:]}, no_input=True)
         proof_gate(chk, pr)
         return chk.finish()
 
     env = StyleEnv()
-    cases = load_corpus(PROP) + gen_char_cases(chk) + gen_write_cases(chk) + gen_pipeline_cases(chk)
-    dist = {"char": 0, "write": 0, "copy_body+render": 0, "e2e_single": 0, "e2e_mixed": 0, "print_formatted_text": 0, "e2e_dumb": 0}
+    cases = load_corpus(PROP) + gen_char_cases(chk) + gen_write_cases(chk) + gen_pipeline_cases(chk) + gen_producer_cases(chk)
+    dist = {"char": 0, "write": 0, "copy_body+render": 0, "e2e_single": 0, "e2e_mixed": 0, "e2e_pair": 0, "print_formatted_text": 0, "e2e_dumb": 0, "producers": 0}
     impl_results, oracle_bad = [], set()
     for i, c in enumerate(cases):
         try:
@@ -601,6 +718,12 @@ def main(tier):
             nontrivial = 27 in c[1]
             tags = {"op": "Vt100_Output.write", "family": "write-esc"}
             rep = {"data": unS(c[1]), "how": "Vt100_Output(StringIO).write(data); flush()"}
+        elif c[0] in (4, 5, 6, 7):
+            dist["producers"] += 1
+            bad = ("producer raised: %r" % (res,), "raise") if (res and res[0] in ("EXC", "HANG")) else oracle_producer(c, res)
+            nontrivial = True
+            tags = {"op": "producer-%d" % c[0], "family": bad[1] if bad else ""}
+            rep = {"case": c, "how": "harness/c10.py impl_producer (4 FormattedTextControl, 5 BufferControl, 6 _get_menu_item_fragments, 7 explode_text_fragments)"}
         else:
             dist["copy_body+render"] += 1
             if info is None:
@@ -698,7 +821,7 @@ def main(tier):
     k = 600 if chk.tier == "thorough" else 150
     idx = sorted(chk.rng.sample(range(len(cases)), min(k, len(cases))))
     pairs = [(cases[i], impl_results[i]) for i in idx]
-    bad, logs = vm_crosscheck(PROP, "run_C10", "Model.C10_Screen", pairs, per_file=75)
+    bad, logs = vm_crosscheck(PROP, "run_C10p", "Model.C10_Screen Model.C10_Producers", pairs, per_file=75)
     chk.coverage["vm_compute_crosschecked"] = len(pairs)
     model_bad = set(i for i, (a, m) in enumerate(zip(impl_results, model_results)) if sx_norm(a) != m)
     vm_bad = set(idx[b] for b in bad if isinstance(b, int))
@@ -778,6 +901,10 @@ def replay(data):
         else:
             res, _ = run_case_impl(c, None)
             print("impl -> %r" % (res,))
+            if c and c[0] in (4, 5, 6, 7):
+                bad = oracle_producer(c, res)
+                print("ORACLE FAILS: " + bad[0] if bad else "oracle ok")
+                rc = 1 if bad else 0
         m = run_model("c10", [c])[0]
         print("model agrees" if m == sx_norm(res) else "model differs")
         return rc
